@@ -16,7 +16,7 @@ const (
 )
 
 type KeyFile struct {
-	Path string
+	Path string `json:"-"`
 
 	BaseAddress types.Address `json:"baseAddress"`
 	Crypto      cryptoParams  `json:"crypto"`
